@@ -145,3 +145,13 @@ impl Drop for Scratch {
         let _ = std::fs::remove_dir_all(&self.0);
     }
 }
+
+/// Fixed per-record memory overhead the store charges (measured once on a memory-only store).
+pub fn record_overhead() -> usize {
+    static OVERHEAD: std::sync::OnceLock<usize> = std::sync::OnceLock::new();
+    *OVERHEAD.get_or_init(|| {
+        let s = open(&Cfg::memory(), None).expect("memory store");
+        let _ = s.insert(b"p", b"v");
+        s.memory_usage() - 2
+    })
+}
